@@ -1,6 +1,6 @@
 """C28  Fermi-sea and Fermi-surface formulations agree  (DESIGN 4/C28)
 
-Models: random Hermitian tight-binding models from vlib.wbsys (2-3 Wannier functions, complex hoppings on the first
+Models: random Hermitian tight-binding models from vlib.wbsys (2 Wannier functions, in 2D also 3, complex hoppings on the first
 shell plus 1-3 second-shell vectors, no symmetry at all: inversion and time reversal broken, arbitrary centres, 11
 lattice families, rotated), bulk 3D (24^3 k-points) or planar 2D (periodic=(T,T,F), 72^2 k-points, all centres in
 one plane so that nothing depends on the confined direction).  H(k) = diag(0,s,2s) + T(k) with the on-site mixing and
@@ -36,9 +36,9 @@ Measure: rel = max|A-B| / max(max|A|, max|B|) over the judged levels and all com
 Verdict per pair (DESIGN 6): rel <= PASS -> agrees; PASS < rel <= CLEAR -> inside the margin: inconclusive, never a
 violation; rel > CLEAR -> the case is re-run on a coarser grid (16^3 / 48^2, f'' form 72^2) and a violation is reported
 only if the two calculators changed by <= CONV (sum of both, relative) between the grids, otherwise "not converged"
-(inconclusive).  Calibration on the unchanged tree, final generator, 18 models: Ohmic/BerryDipole/GME pairs rel <=
-1.7 %, NLDrude sea/surface <= 7.5 %, f'' form (2D) <= 6.4 %; PASS = 5 % / 15 % / 15 %, CLEAR = 25 % / 35 % / 35 %,
-CONV = 6 %.  (The f'' status is reported as a label and never makes the case inconclusive.)
+(inconclusive).  Calibration on the unchanged tree, final generator, ~60 models: Ohmic/BerryDipole/GME pairs rel <=
+2.7 % (typically 1 %), NLDrude sea/surface <= 9 % (one case in 60 between 15 and 35 %), f'' form (2D) <= 6.4 %;
+PASS = 5 % / 15 % / 15 %, CLEAR = 15 % / 35 % / 35 %, CONV = 6 %.  (The f'' status is reported as a label and never makes the case inconclusive.)
 Discrimination guard (non-triviality): the sign-flipped partner is off by ~2 for every pair; for the pairs whose
 tensor is not symmetric (Berry dipole, both gyrotropic tensors) the transposed partner must be off by > 0.3,
 otherwise the case cannot see an index swap and is counted trivial.
@@ -53,7 +53,7 @@ from vlib.util import fl, scratch_dir, maxabs
 from vlib import wbsys
 
 PROPERTY_ID = "C28"
-RULE = ("random symmetry-free 2-3 band tight-binding models (first + second shell, arbitrary centres, 11 lattice "
+RULE = ("random symmetry-free 2-band (2D: 2-3 band) tight-binding models (first + second shell, arbitrary centres, 11 lattice "
         "families, every direct gap >= 0.6 eV by construction) x {3D 24^3, planar 2D 72^2} x spin matrix {random "
         "Hermitian SS(R), set_spin_pairs} x T in [1000,2000] K x use_factor, one run() with the documented "
         "sea/surface pairs (Ohmic, Berry dipole, GME spin, GME orbital, nonlinear Drude; in 2D also the f'' form), "
@@ -65,8 +65,8 @@ ASSUMPTIONS = ["internal terms only (kwargs_formula external_terms=False); model
                "2D models are planar (all centres share the out-of-plane coordinate): the identities need a k-integral "
                "along every differentiated direction",
                "Fermi grid 253-381 points (dE <= 0.15 kT): a coarser grid adds a quadrature error of the smoother itself",
-               "calibrated on the unchanged tree (18 models): sea/surface pairs rel <= 1.7 %, NLDrude <= 7.5 %, f'' form "
-               "(2D, plain sum, 144^2) <= 6.4 %; PASS 5/15/15 %, violation only above 25/35/35 % and only if both "
+               "calibrated on the unchanged tree (~60 models): sea/surface pairs rel <= 2.7 %, NLDrude <= 9 %, f'' form "
+               "(2D, plain sum, 144^2) <= 6.4 %; PASS 5/15/15 %, violation only above 15/35/35 % and only if both "
                "calculators changed by <= 6 % between the coarse and the judged grid (DESIGN 6)",
                "the f'' form is not judged in 3D (not resolvable at affordable grids); with use_factor=False its dropped "
                "factor 1/2 is applied here"]
@@ -91,7 +91,7 @@ GRIDS = {3: [([4, 4, 4], [6, 6, 6], [4, 4, 4], [4, 4, 4]), ([3, 3, 3], [8, 8, 8]
 def case_st(draw):
     dim = draw(st.sampled_from([3, 2, 3]))
     ss = draw(st.sampled_from(["random", "pairs"]))
-    nw = 2 if ss == "pairs" else draw(st.sampled_from([2, 2, 3]))
+    nw = 2 if (ss == "pairs" or dim == 3) else draw(st.sampled_from([2, 3]))     # 3 bands only in 2D (cost)
     extra = draw(st.lists(st.sampled_from([tuple(r) for r in (SHELL2_3D if dim == 3 else SHELL2_2D)]), min_size=1,
                           max_size=3, unique=True))
     cz = draw(fl(0, 0.999)) if dim == 2 else None
